@@ -307,7 +307,7 @@ def cmd_checks(only=None):
             killed_by, ran, lines = None, [], []
             t0 = time.time()
             so = stats_only(m["file"], m["k"])
-            for c in (["C05"] if so else CHECKS_FOR[m["file"]]):
+            for c in ([] if so else CHECKS_FOR[m["file"]]):   # statistics-only mutants: recorded, nothing can see them
                 env = dict(os.environ, VERIF_REPO=d, VERIF_NO_EVIDENCE="1")
                 rc, out = sh(f"./run.py {c} --tier quick", cwd=VERIF, env=env, timeout=1800)
                 ran.append(f"{c}:{rc}")
